@@ -370,6 +370,61 @@ def real_call(c, seed, keep=True):
     return ksample.k_sample(x, g, reps=c["reps"], keep_dist=keep, seed=seed, plus1=c["plus1"]), (x, g)
 
 
+def doc_stat2(name, u, v):
+    """documented named statistics of two_sample, written independently of the library"""
+    u = np.asarray(u, dtype=float); v = np.asarray(v, dtype=float)
+    if name == "mean":
+        return float(u.mean() - v.mean())
+    nu, nv = len(u), len(v)      # 't': Student's t with the POOLED variance
+    sp2 = ((nu - 1) * u.var(ddof=1) + (nv - 1) * v.var(ddof=1)) / (nu + nv - 2)
+    den = math.sqrt(sp2 * (1.0 / nu + 1.0 / nv))
+    return float((u.mean() - v.mean()) / den) if den > 0 else float("nan")
+
+
+def doc_stat1(name, z):
+    z = np.asarray(z, dtype=float)
+    if name == "mean":
+        return float(z.mean())
+    sd = z.std(ddof=1)
+    return float(z.mean() / (sd / math.sqrt(len(z)))) if sd > 0 else float("nan")
+
+
+def run_named_on_tape(c):
+    """named statistic ('mean', 't') on a scripted tape: every simulated value is predicted from the draws (Python mirror
+    of the shuffles) and the documented formula"""
+    import random as _r
+    t = Tape(None, lazy(_r.Random(c["seed"]), "random"))
+    x = np.array(c["x"], dtype=float); y = np.array(c["y"], dtype=float)
+    fn = c["fn"]
+    if fn == "two_sample":
+        r = guarded(lambda: core.two_sample(x, y, reps=c["reps"], stat=c["stat"], alternative=c["alt"], keep_dist=True, seed=t, plus1=c["plus1"]))
+        col0 = list(x) + list(y); col1 = col0
+    elif fn == "two_sample_shift":
+        if c["seed"] % 2:
+            sh = 0.5; col0 = list(x) + [v + 0.5 for v in y]; col1 = [v - 0.5 for v in x] + list(y)
+        else:
+            sh = _scale_pair(2.0, 2.0); col0 = list(x) + [v * 2.0 for v in y]; col1 = [v / 2.0 for v in x] + list(y)
+        r = guarded(lambda: core.two_sample_shift(x, y, reps=c["reps"], stat=c["stat"], alternative=c["alt"], keep_dist=True, seed=t, plus1=c["plus1"], shift=sh))
+    else:
+        r = guarded(lambda: core.one_sample(x, None, reps=c["reps"], stat=c["stat"], alternative=c["alt"], keep_dist=True, seed=t, plus1=c["plus1"]))
+    if r[0] != "ok":
+        return {"r": list(r)}
+    ans = [a for (_, a) in t.log]
+    exp = []
+    if fn == "one_sample":
+        exp.append(doc_stat1(c["stat"], x))
+        for _ in range(c["reps"]):
+            b = [ans.pop(0) for _ in range(len(x))]
+            exp.append(doc_stat1(c["stat"], [xi * (1 - 2 * bi) for xi, bi in zip(x, b)]))
+    else:
+        nx = len(x); rr = list(range(len(col0)))
+        exp.append(doc_stat2(c["stat"], x, y))
+        for _ in range(c["reps"]):
+            rr = m_pyshuffle(rr, ans)
+            exp.append(doc_stat2(c["stat"], [col0[i] for i in rr[:nx]], [col1[i] for i in rr[nx:]]))
+    return {"r": ["ok", float(r[1][0]), float(r[1][1]), [float(v) for v in r[1][2]]], "expected": exp, "leftover": len(ans)}
+
+
 def run_real(c):
     out = {}
     def one(tag, mkseed, gseed, keep=True):
@@ -388,6 +443,8 @@ def run_real(c):
     one("rs2", lambda: np.random.RandomState(c["seed"] % 2**32), c["gseed"] + 4)
     if c["fn"] in ("two_sample", "two_sample_shift", "one_sample", "k_sample"):
         one("nokeep", lambda: c["seed"], c["gseed"] + 5, keep=False)
+    if c["fn"] in ("two_sample", "two_sample_shift", "one_sample") and c["stat"] in ("mean", "t"):
+        out["named_tape"] = run_named_on_tape(c)
     if c["fn"] in ("two_sample", "one_sample"):
         # every generator type: what the statistic receives must be an admissible rearrangement of the data
         for tag, mk in (("rec_rs", lambda: np.random.RandomState(c["seed"] % 2**32)), ("rec_int", lambda: c["seed"])):
@@ -772,7 +829,17 @@ def oracle_real(c, o):
                 if not ok:
                     gen = "RandomState" if tag == "rec_rs" else "int seed"
                     return {"why": f"{name} with a {gen} generator handed the statistic {a}, not a rearrangement / sign change of x={x}, y={y}", "cls": f"{name}:inadmissible"}
-    o = {k: v for k, v in o.items() if not k.startswith("rec_")}
+    if "named_tape" in o:
+        tp = o["named_tape"]
+        if tp["r"][0] != "ok":
+            return {"why": f"{name}(stat={c['stat']!r}) raised on a scripted generator: {tp['r']}", "cls": f"{name}:raises"}
+        got = [tp["r"][2]] + tp["r"][3]
+        for k, (gv, ev) in enumerate(zip(got, tp["expected"])):
+            if math.isfinite(ev) and not (abs(gv - ev) <= 1e-9 * (1 + abs(ev))):
+                what = "observed statistic" if k == 0 else f"simulated value {k - 1}"
+                return {"why": f"{name}(stat={c['stat']!r}): {what} = {gv} but the documented statistic ({'difference in means' if c['stat'] == 'mean' else 'pooled-variance / one-sample t'}) on the {'data as given' if k == 0 else 'rearrangement selected by the draws'} is {ev} (x={c['x']}, y={c['y']})",
+                        "cls": f"{name}:observed-stat" if k == 0 else f"{name}:wrong-rearrangement"}
+    o = {k: v for k, v in o.items() if not k.startswith("rec_") and k != "named_tape"}
     rs = {k: v["r"] for k, v in o.items()}
     if any(v[0] != "ok" for v in rs.values()):
         bad = [(k, v[:3]) for k, v in rs.items() if v[0] != "ok"]
